@@ -216,7 +216,7 @@ def r3_writers(ctx, f, rep):
                         writers.setdefault(b.nname, []).append((e['name'], s['span']))
                 rv = s['rv']
                 if rv['k'] == 'aggregate' and rv['what'] == 'adt' and strip_generics(rv['name']) == MEMBER:
-                    constructors.add(b.nname)
+                    constructors.update(f.attributed(b))
                 if rv['k'] == 'ref' and rv['mut']:
                     for e in rv['place']['proj']:
                         if e['k'] == 'field' and strip_generics(e.get('owner', '')) == MEMBER:
